@@ -1712,7 +1712,10 @@ impl TestTextSelection for TextSelection {
         //note: at this level we deal with two singletons and there is no different between the *All variants
         match operator {
             TextSelectionOperator::Equals { negate: false, .. }
-            | TextSelectionOperator::InSet { negate: false, .. } => self == reftextsel,
+            | TextSelectionOperator::InSet { negate: false, .. } => {
+                //same range (a known text selection carries a handle, the same range given by offset does not: that is no difference in text)
+                self.begin == reftextsel.begin && self.end == reftextsel.end
+            }
             TextSelectionOperator::Overlaps { negate: false, .. } => {
                 //item must be equal overlap with any of the items in the other set
                 (reftextsel.begin >= self.begin && reftextsel.begin < self.end)
